@@ -160,6 +160,15 @@ def main():
                 upstream_fail = True
             broken_detail["lake"] = out[-3000:]
         driver_ok = (LEAN / ".lake" / "build" / "bin" / "driver").exists() and "Driver" not in " ".join(k for k in broken_detail if k.startswith("build:"))
+        # optional second driver that runs the REGENERATED definitions of this property (translator validation streams);
+        # when it does not build (a generated module is broken) those streams are skipped -- the translate / theorem obligations already say so
+        gen_exe = None
+        if (LEAN / "GenDriver" / f"{pid}.lean").exists():
+            rcg, outg = sh(["lake", "build", f"gen_{pid.lower()}"], cwd=LEAN)
+            cand = LEAN / ".lake" / "build" / "bin" / f"gen_{pid.lower()}"
+            if rcg == 0 and cand.exists():
+                gen_exe = cand
+            info["gen_driver"] = "built" if gen_exe else "not built (generated module broken): generated-code streams skipped"
         for name, s, e in prop_thms:
             obligations[f"theorem:{name}"] = not (upstream_fail or name in failed)
         # helper (non Cxx_) theorems that fail also break whatever depends on them: lean reports those downstream
@@ -201,6 +210,7 @@ def main():
 
     # ------------------------------------------------------------ 3 CORRESPOND
     ctx = Ctx(pid, tier, seed, driver_ok, work)
+    ctx.gen = Driver(gen_exe) if gen_exe else None
     results = []
     crashed = None
     if not driver_ok:
@@ -309,6 +319,8 @@ class Ctx:
     def __init__(self, pid, tier, seed, driver_ok, work):
         self.pid, self.tier, self.seed, self.work = pid, tier, seed, work
         self.driver = Driver() if driver_ok else None
+        gp = LEAN / ".lake" / "build" / "bin" / f"gen_{pid.lower()}"
+        self.gen = Driver(gp) if gp.exists() else None
         self.corpus = VERIF / "corpus" / pid
 
     def corpus_cases(self, stream=None):
